@@ -10,7 +10,7 @@ from types import SimpleNamespace
 import numpy as np
 
 import seqmodel as sm
-from common import F, ztok, qtok
+from common import D as F, ztok, qtok
 
 A_LEVELS = [2.0e5, 3.5e5]
 RASTER = 1e-5
@@ -90,13 +90,24 @@ class Pool:
         kind = r.choice(['block', 'block', 'block', 'sinc'])
         kw = dict(delay=r.choice([0, 1e-4, 1.5e-4]), freq_offset=r.choice([0, 100.0, 123.4567, 123.4561]),
                   phase_offset=r.choice([0, 0.5, math.pi / 2]), system=self.sys)
-        use = r.choice([None, 'excitation', 'refocusing', 'inversion'])
+        if kind == 'block':
+            args = (r.choice([math.pi / 2, math.pi, 0.3]),)
+            kw['duration'] = r.choice([1e-4, 2e-4, 1e-3])
+        else:
+            args = (r.choice([math.pi / 2, 0.5]),)
+            kw['duration'] = r.choice([4e-5, 6e-5])
+            kw['time_bw_product'] = r.choice([2, 4])
+        # `use` is a function of the other parameters unless collide_use is set: two RF events that differ
+        # only in `use` share one library entry (known finding C06/rf-use-shared-entry)
+        uses = [None, 'excitation', 'refocusing', 'inversion']
+        if getattr(self, 'collide_use', False):
+            use = r.choice(uses)
+        else:
+            h = hash((kind, args, kw['delay'], kw['freq_offset'], kw['phase_offset'], kw['duration'], kw.get('time_bw_product')))
+            use = uses[h % 4]
         if use:
             kw['use'] = use
-        if kind == 'block':
-            return pp.make_block_pulse(r.choice([math.pi / 2, math.pi, 0.3]), duration=r.choice([1e-4, 2e-4, 1e-3]), **kw)
-        return pp.make_sinc_pulse(r.choice([math.pi / 2, 0.5]), duration=r.choice([4e-5, 6e-5]),
-                                  time_bw_product=r.choice([2, 4]), **kw)
+        return (pp.make_block_pulse if kind == 'block' else pp.make_sinc_pulse)(*args, **kw)
 
     def adc(self):
         import pypulseq as pp
@@ -191,8 +202,16 @@ def gen_block(rng, pool, prev_last, mostly_valid=True, rich=True):
 class Twin:
     """the same history on a cache-on and a cache-off Sequence + the model line"""
 
-    def __init__(self, system, abs_fix=True):
+    def __init__(self, system, abs_fix=None):
         import pypulseq as pp
+        if abs_fix is None:
+            import translate
+            if 'align_check_uses_abs' not in translate.CONSTS:
+                try:
+                    translate.sec_block()
+                except Exception:
+                    pass
+            abs_fix = translate.CONSTS.get('align_check_uses_abs', True)
         self.on = pp.Sequence(system, use_block_cache=True)
         self.off = pp.Sequence(system, use_block_cache=False)
         self.header = sm.header_tokens(self.on, True, abs_fix)
